@@ -511,6 +511,13 @@ func (vc *FnVC) atomicOp(cc *ssa.CallCommon, val *ssa.Call) bool {
 		return false
 	}
 	vc.trustedUsed["sync/atomic operations are sequentially consistent single steps on their location"] = true
+	var res []TV
+	if val != nil {
+		if t, ok := vc.vals[val]; ok {
+			res = []TV{{t: t, ty: val.Type()}}
+		}
+	}
+	vc.cur = vc.applyCallGhostsX(name, nil, res, vc.cur, nil)
 	return true
 }
 
